@@ -81,8 +81,14 @@ def run(tier, seed, selftest=False, replay=None):
     T("validated")
     verdict = Verdict(PID)
     n_events, n_results, leaves, sample = judge(PID, files, vals, verdict, ("find_subtypes", "find_irrelevant"))
+    ev = (0, 0, 0, None)
+    if not replay:
+        import ev_common
+        ev = ev_common.run_ev(PID, ["find_subtypes", "find_irrelevant"], tier, seed, verdict,
+                              describe=lambda e: "%s(%s) -> %s" % (e["kind"], show(e["T"]), [show(r) for r in e["res"]][:5]))
     rc = verdict.finish()
     write_evidence(PID, tier, seed, "model_checking", {
+        "ev_generator_calls": {"programs": ev[0], "distinct_calls_judged": ev[1], "not_judgeable": ev[2]},
         "states": gstates[0] + sum(v.distinct for v in vals), "transitions": gstates[1] + sum(v.generated for v in vals),
         "traces_validated_against_impl": n_events,
         "samples": [{"table": sample[0]["id"], "call": sample[1]["kind"], "T": show(sample[1]["T"]), "include_self": sample[1]["include_self"],
